@@ -644,15 +644,25 @@ def run_case(vib, case, E=frozenset(), stats=None):
                 return res
             continue
 
+        x_tolerated = False
+
+        def xfail(f):
+            if x_tolerated:
+                res["ended"] = "failing judgement of an inexpressible value tolerated under %s" % sorted(E)
+            else:
+                res["fail"] = f
+            return res
+
         plist = list(params or ())
         xs = [i for i, v in enumerate(plist) if is_special_float(v) or is_bigint(v)]
         # ---- B. values that have no literal (NaN, +-inf, ints outside i64): raises or round-trips
         if xs:
             kinds = set("special" if is_special_float(plist[i]) else "bigint" for i in xs)
             cls("step:inexpressible")
-            if kinds <= E:
-                res["ended"] = "inexpressible value not judged under %s" % sorted(kinds)
-                return res
+            # under E >= kinds a failing judgement of this step is tolerated (the case ends there); steps that
+            # pass are treated exactly as in the plain run, so that E never "explains" a later failure by merely
+            # cutting the case short
+            x_tolerated = kinds <= E
             relname = "inexpressible." + "+".join(sorted(kinds))
             if outP.status != "ok":
                 cls("step:inexpressible_raises")
@@ -661,18 +671,15 @@ def run_case(vib, case, E=frozenset(), stats=None):
             if info["kind"] in ("echo", "select") and all(slots[i]["where"] == "list" for i in xs) and info["kind"] == "echo":
                 bad = readback_list(info, plist, outP, E)
                 if bad:
-                    res["fail"] = fail(k, relname + ".readback", ctxt() + " :: " + bad)
-                    return res
+                    return xfail(fail(k, relname + ".readback", ctxt() + " :: " + bad))
                 if newP != dumpP:
-                    res["fail"] = fail(k, relname + ".state_changed", ctxt())
-                    return res
+                    return xfail(fail(k, relname + ".state_changed", ctxt()))
                 verified += 1
                 continue
             if info["kind"] == "insert":
                 bad = readback_insert(info, tables, plist, dumpP, newP, E, only=None)
                 if bad:
-                    res["fail"] = fail(k, relname + ".readback", ctxt() + " :: " + bad)
-                    return res
+                    return xfail(fail(k, relname + ".readback", ctxt() + " :: " + bad))
                 res["verified"] = verified + 1
                 res["ended"] = "row with inexpressible value stored; reference cannot follow"
                 return res
@@ -701,8 +708,7 @@ def run_case(vib, case, E=frozenset(), stats=None):
                     res["ended"] = "inexpressible value in SET: reference with a stand-in raises; not judged"
                     return res
                 if mapped != newP or outR.rowcount != outP.rowcount:
-                    res["fail"] = fail(k, relname + ".update_differs", ctxt() + " :: expected tables %r got %r" % (mapped, newP))
-                    return res
+                    return xfail(fail(k, relname + ".update_differs", ctxt() + " :: expected tables %r got %r" % (mapped, newP)))
                 res["verified"] = verified + 1
                 res["ended"] = "inexpressible value stored by UPDATE; reference cannot follow"
                 return res
@@ -727,18 +733,14 @@ def run_case(vib, case, E=frozenset(), stats=None):
         both = " :: reference %r -> %s" % (rsql, outR.brief())
         if (outP.status == "ok") != (outR.status == "ok"):
             rel = "status.param_raises_reference_ok" if outP.status != "ok" else "status.param_ok_reference_raises"
-            res["fail"] = fail(k, rel, ctxt() + both)
-            return res
+            return xfail(fail(k, rel, ctxt() + both))
         if outP.status == "ok":
             if outP.rows != outR.rows:
-                res["fail"] = fail(k, "rows_differ", ctxt() + both)
-                return res
+                return xfail(fail(k, "rows_differ", ctxt() + both))
             if outP.rowcount != outR.rowcount:
-                res["fail"] = fail(k, "rowcount_differs", ctxt() + both)
-                return res
+                return xfail(fail(k, "rowcount_differs", ctxt() + both))
         if newP != newR:
-            res["fail"] = fail(k, "tables_differ", ctxt() + both + " :: tables param=%r reference=%r" % (newP, newR))
-            return res
+            return xfail(fail(k, "tables_differ", ctxt() + both + " :: tables param=%r reference=%r" % (newP, newR)))
         if outP.status != "ok":
             cls("step:both_raise")
             if outP.exc != outR.exc or re.sub(r"\d+", "#", outP.msg or "") != re.sub(r"\d+", "#", outR.msg or ""):
@@ -919,7 +921,7 @@ def make_strategy(open_sigs):
         # (drawn lazily, when the generator is about to decide whether to produce that trigger)
         class Avoid(dict):
             def __missing__(self, a):
-                self[a] = (SIG[a] in open_sigs) and di(0, 4) != 0
+                self[a] = (SIG[a] in open_sigs) and di(0, 4) != 4
                 return self[a]
         avoid = Avoid()
 
@@ -974,14 +976,14 @@ def make_strategy(open_sigs):
             cols = []
             for ci in range(ncol):
                 cols.append(["c%d" % ci, pick(["INTEGER", "DOUBLE", "VARCHAR", "BOOLEAN"])])
-            if di(0, 7) == 0:  # a column that is called like the text of a special float
+            if di(0, 7) == 7:  # a column that is called like the text of a special float
                 dc = [c for c in cols if c[1] == "DOUBLE"] or cols
                 pick(dc)[0] = pick(["inf", "nan"])
             name = "t%d" % ti
             tables.append((name, cols))
             ddl.append("CREATE TABLE %s (%s)" % (name, ", ".join("%s %s" % (c, SQLTYPE[t]) for c, t in cols)))
             for _ in range(di(0, 4)):
-                vals = [None if di(0, 5) == 0 else plain(t) for _, t in cols]
+                vals = [None if di(0, 5) == 5 else plain(t) for _, t in cols]
                 setup.append("INSERT INTO %s VALUES (%s)" % (name, ", ".join(lit(v) for v in vals)))
 
         # ---- parameter values
@@ -990,9 +992,9 @@ def make_strategy(open_sigs):
                 if avoid["bool"]:
                     return None
                 return di(0, 1) == 1
-            if ctype == "INTEGER" and di(0, 19) == 0 and not avoid["bigint"]:
+            if ctype == "INTEGER" and di(0, 19) == 19 and not avoid["bigint"]:
                 return pick(BIG_INTS)
-            if ctype == "DOUBLE" and di(0, 11) == 0 and not avoid["special"]:
+            if ctype == "DOUBLE" and di(0, 11) == 11 and not avoid["special"]:
                 return pick(SPECIAL_FLOATS)
             v = plain(ctype)
             if where == "list" and isinstance(v, int) and v == I64MIN and avoid["intmin"]:
@@ -1001,9 +1003,9 @@ def make_strategy(open_sigs):
 
         def param(ctype, where):
             r = di(0, 19)
-            if r == 0:
+            if r == 19:
                 return None
-            if ctype is None or r == 1:
+            if ctype is None or r == 18:
                 ctype = pick(["INTEGER", "DOUBLE", "VARCHAR", "BOOLEAN"])
             return param_natural(ctype, where)
 
@@ -1014,7 +1016,7 @@ def make_strategy(open_sigs):
         def atom(tcols, slots, budget):
             c, t = pick(tcols)
             op = pick(["=", "=", "=", ">", "<", ">=", "<=", "<>"])
-            if budget[0] > 0 and di(0, 5) != 0:
+            if budget[0] > 0 and di(0, 5) != 5:
                 budget[0] -= 1
                 slots.append((t, "where"))
                 return "%s %s ?" % (c, op)
@@ -1022,7 +1024,7 @@ def make_strategy(open_sigs):
 
         def pred(tcols, slots, budget):
             p = atom(tcols, slots, budget)
-            if di(0, 2) == 0:
+            if di(0, 2) == 2:
                 p = "%s %s %s" % (p, pick(["AND", "AND", "OR"]), atom(tcols, slots, budget))
             return p
 
@@ -1042,7 +1044,7 @@ def make_strategy(open_sigs):
             if kind == "insert":
                 cols = list(tcols)
                 names = ""
-                if di(0, 3) == 0:
+                if di(0, 3) == 3:
                     cols = list(draw(st.permutations(cols)))[:di(1, len(cols))]
                     names = " (%s)" % ", ".join(c for c, _ in cols)
                 items = []
@@ -1050,7 +1052,7 @@ def make_strategy(open_sigs):
                     if strlit and t == "VARCHAR":
                         items.append(strlit)
                         strlit = None
-                    elif di(0, 5) == 0:
+                    elif di(0, 5) == 5:
                         items.append(const(t))
                     else:
                         items.append("?")
@@ -1072,29 +1074,29 @@ def make_strategy(open_sigs):
                 if deco.startswith("ident") and lst != "*":
                     lst += " AS " + pick(ID_DECO_Q if deco == "ident_q" else ID_DECO)
                 sql = "SELECT %s FROM %s" % (lst, tname)
-                if di(0, 7) != 0:
+                if di(0, 7) != 7:
                     where = pred(tcols, slots, budget)
             elif kind == "update":
                 sets = []
-                for _ in range(1 if di(0, 3) else 2):
+                for _ in range(2 if di(0, 3) == 3 else 1):
                     c, t = pick(tcols)
                     if c in [s.split(" ")[0] for s in sets]:
                         continue
                     if strlit and t == "VARCHAR":
                         sets.append("%s = %s" % (c, strlit))
                         strlit = None
-                    elif di(0, 5) == 0:
+                    elif di(0, 5) == 5:
                         sets.append("%s = %s" % (c, const(t)))
                     else:
                         budget[0] -= 1
                         slots.append((t, "set"))
                         sets.append("%s = ?" % c)
                 sql = "UPDATE %s SET %s" % (tname, ", ".join(sets))
-                if di(0, 5) != 0:
+                if di(0, 5) != 5:
                     where = pred(tcols, slots, budget)
             elif kind == "delete":
                 sql = "DELETE FROM %s" % tname
-                if di(0, 9) != 0:
+                if di(0, 9) != 9:
                     where = pred(tcols, slots, budget)
             elif kind == "echo":
                 n = di(1, 4)
@@ -1145,7 +1147,7 @@ def make_strategy(open_sigs):
             ti = di(0, ntpl - 1)
             sql, slots = tpls[ti]
             ps = [param(t, w) for t, w in slots]
-            if di(0, 24) == 0:  # wrong number of parameters
+            if di(0, 24) == 24:  # wrong number of parameters
                 if ps and di(0, 1):
                     ps = ps[:-1]
                 else:
@@ -1256,7 +1258,8 @@ RULE = ("Hypothesis (@seed(VERIF_SEED), database=None, derandomize=False) draws 
         "blanks). Non-trivial = (some statement text executed >= 2 times with different tuples [exact text, or the "
         "trailing-blank variant while the cache finding is avoided] OR a string parameter containing ' or ?) AND at least "
         "one step with placeholders succeeded on both connections with equal rows, rowcount, tables and read-back "
-        "(a step that raises on both sides verifies nothing). Distinct = sha256 of (schema, setup, steps).")
+        "(a step that raises on both sides verifies nothing). Distinct = sha256 of (schema, setup, steps); an example that repeats a case which already "
+        "held in this process is not executed again (evaluations counts executed cases, generated_examples all).")
 
 ASSUMPTIONS = [
     "reference = a second connection of the same extension executing the statement with the harness's own literal "
@@ -1292,6 +1295,9 @@ class Run:
         self.classes = collections.Counter()
         self.kf_hits = collections.Counter()
         self.evaluations = 0
+        self.generated = 0
+        self.duplicates = 0
+        self.passed = set()
         self.sub_evals = 0
         self.nontrivial = set()
         self.seen = set()
@@ -1308,6 +1314,8 @@ class Run:
         self.classes.update(r["classes"])
         self.kf_hits.update(r["kf_hits"])
         self.evaluations += r["evaluations"]
+        self.generated += r["generated"]
+        self.duplicates += r["duplicates"]
         self.sub_evals += r["sub_evals"]
         self.nontrivial |= r["nontrivial"]
         self.seen |= r["seen"]
@@ -1319,12 +1327,19 @@ class Run:
 
     def evaluate(self, case, count=True):
         """-> None (held / only open known findings) or {signature, detail}"""
+        if count:
+            self.generated += 1
+            h = case_hash(case)
+            if h in self.passed:
+                # Hypothesis' mutator repeats examples; the oracle is deterministic and every case seen so far
+                # held (a violation ends the run), so an exact duplicate is not executed again
+                self.duplicates += 1
+                return None
         stats = collections.Counter()
         verdict = judge(self.vib, case, stats)
         if count:
             self.evaluations += 1
             self.sub_evals += len(case["steps"])
-            h = case_hash(case)
             cl, nt_static = static_classes(case)
             for c in cl:
                 self.classes[c] += 1
@@ -1351,6 +1366,8 @@ class Run:
             elif viol is None:
                 ff = verdict["first_fail"] or {}
                 viol = {"signature": sig, "detail": ff.get("detail", "")}
+        if count and viol is None:
+            self.passed.add(h)
         return viol
 
 
@@ -1393,6 +1410,8 @@ def write_evidence(run, tier, t0, extra=None):
         "evaluations": run.evaluations if run else 0,
         "distinct_nontrivial": len(run.nontrivial) if run else 0,
         "distinct_cases": len(run.seen) if run else 0,
+        "generated_examples": run.generated if run else 0,
+        "duplicate_examples_not_rerun": run.duplicates if run else 0,
         "executes_checked": run.sub_evals if run else 0,
         "rule": RULE,
         "samples": ((run.samples + run.nt_samples) if run else []),
@@ -1483,7 +1502,7 @@ def _worker(arg):
     run = Run(base.vib, base.strict, base.kf)
     found = run_chunk(run, ci, n)
     return {"found": found, "classes": run.classes, "kf_hits": run.kf_hits, "evaluations": run.evaluations,
-            "sub_evals": run.sub_evals, "nontrivial": run.nontrivial, "seen": run.seen, "samples": run.samples,
+            "generated": run.generated, "duplicates": run.duplicates, "sub_evals": run.sub_evals, "nontrivial": run.nontrivial, "seen": run.seen, "samples": run.samples,
             "nt_samples": run.nt_samples, "excluded": run.excluded, "excluded_by_sig": run.excluded_by_sig,
             "harness_errors": run.harness_errors}
 
@@ -1540,7 +1559,7 @@ def main(argv):
             return 1
 
     # ---- generated cases
-    n_total = {"quick": 3000, "thorough": 40000}[tier]
+    n_total = {"quick": 4000, "thorough": 75000}[tier]  # generated examples; ~65% are distinct and get executed
     if os.environ.get("VERIF_C30_EXAMPLES"):
         n_total = int(os.environ["VERIF_C30_EXAMPLES"])
     chunk = 5000  # one @given run per chunk (seed derived from VERIF_SEED and the chunk index) keeps Hypothesis'
@@ -1591,8 +1610,9 @@ def main(argv):
         write_evidence(run, tier, t0, {"inconclusive": msg[:500]})
         return 2
     write_evidence(run, tier, t0)
-    print("[c30] %s seed=%d: %d cases (%d distinct, %d distinct non-trivial), %d executes, %d replayed files, %.1fs: held"
-          % (tier, SEED, run.evaluations, len(run.seen), len(run.nontrivial), run.sub_evals, run.replayed, time.time() - t0))
+    print("[c30] %s seed=%d: %d examples generated, %d distinct cases executed (%d non-trivial), %d executes, "
+          "%d replayed files, %.1fs: held"
+          % (tier, SEED, run.generated, run.evaluations, len(run.nontrivial), run.sub_evals, run.replayed, time.time() - t0))
     return 0
 
 
